@@ -185,7 +185,7 @@ func main() {
 			rest := o.Stdout[len(o.LibStdout):]
 			o.ExtraLines = strings.Count(rest, "\n")
 			if rest != "" && !strings.HasSuffix(rest, "\n") {
-				o.ExtraLines++
+				o.ExtraLines += 100 // not a LINE: the diagnostic must be terminated
 			}
 		}
 		enc.Encode(o)
